@@ -81,6 +81,7 @@ impl Universe {
             let a: SocketAddr = if i % 2 == 0 { format!("203.0.113.{}:{}", i, 1000 + i).parse().unwrap() } else { format!("[2001:db8:1::{:x}]:{}", i, 2000 + i).parse().unwrap() };
             addrs.insert(format!("a{}", i), a);
         }
+        addrs.insert("srv".to_string(), "192.0.2.53:3478".parse().unwrap());
         let mut keys = BTreeMap::new();
         let mut descs = BTreeMap::new();
         for k in ["k1", "k2", "k3"] {
@@ -191,6 +192,13 @@ struct Run<'u> {
     last_until_ms: Option<i64>,
     seal_ext: bool,
     other_tid_outstanding: bool,
+    // client/server exchange mode: datagrams in flight per transaction, network capacity, the server's key
+    exchange: bool,
+    c2s: BTreeMap<i64, Vec<Vec<u8>>>,
+    s2c: BTreeMap<i64, Vec<Vec<u8>>>,
+    max_flight: usize,
+    server_key: Option<String>,
+    last_tx: Option<(i64, Vec<u8>)>,
 }
 
 impl<'u> Run<'u> {
@@ -260,7 +268,14 @@ impl<'u> Run<'u> {
                 self.last_until_ms = Some(u);
                 json!({"k": "wait", "until_ms": u})
             }
-            Ok(StunAgentPollRet::SendData(tx)) => self.transmit_json(&own(tx), None, None),
+            Ok(StunAgentPollRet::SendData(tx)) => {
+                let o = own(tx);
+                let j = self.transmit_json(&o, None, None);
+                if let Some(t) = j["tid"].as_i64() {
+                    self.last_tx = Some((t, o.data.clone()));
+                }
+                j
+            }
             Ok(StunAgentPollRet::TransactionTimedOut(id)) => json!({"k": "timeout", "tid": self.u.tid_index(id)}),
             Ok(StunAgentPollRet::TransactionCancelled(id)) => json!({"k": "cancelled", "tid": self.u.tid_index(id)}),
         }
@@ -323,6 +338,7 @@ impl<'u> Run<'u> {
                         Ok(Ok(tx)) => {
                             let exp = (pay.clone(), bytes);
                             let j = self.transmit_json(&tx, Some(ti), Some(&exp));
+                            self.last_tx = Some((ti, tx.data.clone()));
                             self.sent.insert(ti, exp);
                             self.cancelled.remove(&ti);
                             if let Some((rto, n, last)) = self.install {
@@ -517,8 +533,111 @@ impl<'u> Run<'u> {
                 self.agent.set_local_credentials(self.u.keys[s["key"].as_str().unwrap()].clone());
                 json!({"k": "ok"})
             }
+            "server" => {
+                // the network hands one in-flight copy of the request to a stateless server built from the library:
+                // parse, police, success response with XOR-MAPPED-ADDRESS, sealed with the server's key, fingerprint
+                let ti = s["tid"].as_i64().unwrap();
+                let keep = s["keep"].as_bool().unwrap_or(false);
+                let q = self.c2s.entry(ti).or_default();
+                if q.is_empty() {
+                    json!({"k": "harness_no_datagram"})
+                } else {
+                    let bytes = if keep { q[0].clone() } else { q.remove(0) };
+                    let client = self.u.local;
+                    let key = self.server_key.as_ref().map(|k| (self.u.keys[k].clone(), self.u.descs[k].clone()));
+                    let ext_seal = self.seal_ext;
+                    let alg = self.resp_alg.clone();
+                    let r = catch_unwind(AssertUnwindSafe(|| -> Result<Vec<u8>, String> {
+                        let msg = Message::from_bytes(&bytes).map_err(|e| format!("parse: {e:?}"))?;
+                        if !msg.has_class(MessageClass::Request) {
+                            return Err("not a request".into());
+                        }
+                        let supported = [Software::TYPE, Priority::TYPE, Username::TYPE, IceControlling::TYPE, MessageIntegrity::TYPE,
+                                         MessageIntegritySha256::TYPE, Fingerprint::TYPE];
+                        if let Some(err) = Message::check_attribute_types(&msg, &supported, &[]) {
+                            return Ok(err.build());
+                        }
+                        let mut resp = Message::builder_success(&msg);
+                        let x = XorMappedAddress::new(client, msg.transaction_id());
+                        resp.add_attribute(&x).map_err(|e| format!("{e:?}"))?;
+                        let mut out;
+                        if ext_seal {
+                            out = resp.build();
+                            if let Some((_c, d)) = &key {
+                                for al in alg_list(&alg) {
+                                    out = ext::seal(out, &d.key(), al == IntegrityAlgorithm::Sha256, 32);
+                                }
+                            }
+                            out = ext::fingerprint(out);
+                        } else {
+                            if let Some((c, _d)) = &key {
+                                for al in alg_list(&alg) {
+                                    resp.add_message_integrity(c, al).map_err(|e| format!("{e:?}"))?;
+                                }
+                            }
+                            resp.add_fingerprint().map_err(|e| format!("{e:?}"))?;
+                            out = resp.build();
+                        }
+                        Ok(out)
+                    }));
+                    match r {
+                        Err(e) => json!({"k": "panic", "msg": panic_msg(e)}),
+                        Ok(Err(e)) => json!({"k": "server_refused", "why": e}),
+                        Ok(Ok(resp)) => {
+                            let q = self.s2c.entry(ti).or_default();
+                            if q.len() < self.max_flight {
+                                q.push(resp);
+                            }
+                            json!({"k": "server"})
+                        }
+                    }
+                }
+            }
+            "client_recv" => {
+                let ti = s["tid"].as_i64().unwrap();
+                let keep = s["keep"].as_bool().unwrap_or(false);
+                let q = self.s2c.entry(ti).or_default();
+                if q.is_empty() {
+                    json!({"k": "harness_no_datagram"})
+                } else {
+                    let bytes = if keep { q[0].clone() } else { q.remove(0) };
+                    let from = self.u.addrs["srv"];
+                    let tid = self.u.tids[&ti];
+                    match Message::from_bytes(&bytes) {
+                        Err(e) => json!({"k": "client_parse_error", "e": format!("{e:?}")}),
+                        Ok(msg) => {
+                            let xor_ok = msg.attribute::<XorMappedAddress>().map(|x| x.addr(tid) == self.u.local).unwrap_or(false);
+                            match catch_unwind(AssertUnwindSafe(|| match self.agent.handle_stun(msg, from) {
+                                HandleStunReply::Drop => json!({"k": "drop"}),
+                                HandleStunReply::StunResponse(m) => json!({"k": "response", "same": m.transaction_id() == tid, "mapped_ok": xor_ok}),
+                                HandleStunReply::IncomingStun(_) => json!({"k": "incoming", "same": false}),
+                            })) {
+                                Ok(v) => v,
+                                Err(e) => json!({"k": "panic", "msg": panic_msg(e)}),
+                            }
+                        }
+                    }
+                }
+            }
+            "lose" => {
+                let ti = s["tid"].as_i64().unwrap();
+                let q = if s["dir"].as_str() == Some("c2s") { self.c2s.entry(ti).or_default() } else { self.s2c.entry(ti).or_default() };
+                if q.is_empty() { json!({"k": "harness_no_datagram"}) } else { q.remove(0); json!({"k": "ok"}) }
+            }
             other => json!({"k": "harness_unknown_step", "a": other}),
         };
+        if self.exchange {
+            if let Some((t, data)) = self.last_tx.take() {
+                let q = self.c2s.entry(t).or_default();
+                if q.len() < self.max_flight {
+                    q.push(data);
+                }
+            }
+            ev["net"] = json!({"c2s": self.u.tids.keys().map(|t| self.c2s.get(t).map_or(0, |q| q.len())).collect::<Vec<_>>(),
+                               "s2c": self.u.tids.keys().map(|t| self.s2c.get(t).map_or(0, |q| q.len())).collect::<Vec<_>>()});
+        } else {
+            self.last_tx = None;
+        }
         ev["ret"] = ret;
         ev["clock"] = json!(self.clock);
         ev
@@ -585,6 +704,12 @@ pub fn run_script(script: &Value) -> Vec<Value> {
         last_until_ms: None,
         seal_ext: script["seal"].as_str() == Some("ext"),
         other_tid_outstanding: script["other_tid"].as_str() == Some("outstanding"),
+        exchange: script["exchange"].as_bool().unwrap_or(false),
+        c2s: BTreeMap::new(),
+        s2c: BTreeMap::new(),
+        max_flight: script["max_flight"].as_u64().unwrap_or(2) as usize,
+        server_key: script["server_key"].as_str().filter(|k| *k != "none").map(|k| k.to_string()),
+        last_tx: None,
     };
     let _ = run.transport;
     let mut events = vec![];
